@@ -28,6 +28,8 @@ SYSTEMS = {
     "de31": [[(3, 1), (1, 3)], [(1, 3)]],
     "de321": [[(3, 1), (2, 2), (1, 4)], [(2, 2), (1, 4)], [(1, 4)]],
     "de31one": [[(3, 1), (1, 3)]],
+    "de321one": [[(3, 1), (2, 2), (1, 4)]],
+    "de321two": [[(3, 1), (2, 2), (1, 4)], [(2, 2), (1, 4)]],
 }
 
 
